@@ -71,6 +71,28 @@ func genC02(seed int64, tier string) *Scenario {
 			}
 		}
 	}
+	if rng.Intn(6) == 0 {
+		// a later generation with a single target gives its first 2xx just before
+		// its deploy timeout, and the goroutine completing that probe is
+		// descheduled across the expiry
+		for oi := range sc.Actors[0].Ops {
+			o := &sc.Actors[0].Ops[oi]
+			if oi > 0 && o.Kind == "deploy" && len(o.Targets) == 1 {
+				for ti := range sc.Targets {
+					if sc.Targets[ti].Addr == o.Targets[0] {
+						o.DeployTimeout = deadlineRace(rng, sc, &sc.Targets[ti], sc.HC.Interval)
+						o.Tag = "deadline-race"
+						// and somebody asks right when the timeout has fired
+						sc.Actors = append(sc.Actors, ActorSpec{Name: "zracer", Ops: []Op{
+							{Kind: "request", Path: "/x", After: "target.waitTimeout", AfterN: 1, Delay: 20 * time.Second},
+							{Kind: "request", Path: "/x", Delay: 2 * time.Millisecond},
+							{Kind: "request", Path: "/x", Delay: 5 * time.Millisecond}}})
+					}
+				}
+				break
+			}
+		}
+	}
 	nc := 2 + rng.Intn(7)
 	for c := 0; c < nc; c++ {
 		a := ActorSpec{Name: fmt.Sprintf("client%d", c)}
@@ -119,7 +141,7 @@ func checkC02(r *RunResult) []Violation {
 			g.targets[t] = true
 		}
 		gens = append(gens, g)
-		if c.Ret != 0 && c.Err != nil {
+		if c.Ret != 0 && c.Err != nil && c.Op.Tag != "deadline-race" { // (that one is scripted to fail on its timeout)
 			out = append(out, Violation{Prop: "C02", Clause: "deploy-of-healthy-targets-failed", Msg: fmt.Sprintf("deploy %v returned %v at #%d although every target becomes healthy well inside the deploy timeout", c.Op.Targets, c.Err, c.Ret)})
 		}
 	}
